@@ -59,35 +59,67 @@ Qed.
 Print Assumptions C19_required_missing_doc.
 
 (* ---- accepted <-> consistent ------------------------------------------------------------------------------------ *)
-(* soundness of acceptance, at full strength: whatever the check accepts is consistent *)
-Theorem C19_accepted_is_consistent : forall scope req ann doc,
-  sig_ok ann = true -> scope_ok scope ann = true ->
+(* Guards of this section.  `sig_ok`: the annotations form a dict (every key once) of typing objects.  `scope_ok`: the scope
+   contains the classes the annotations mention.  `doc_no_typing_dot`: pedantic rejects the *spelling* "typing." in a
+   documented type as such.  `no_hiding scope` (only for "accepted => consistent" and what follows from it): no class visible
+   to the function is called like a non-class export of typing (List, Dict, Any, Optional ...).                          *)
+
+(* completeness of acceptance, for ALL class names (also user classes called List, Type, Any ...): a consistent docstring
+   is accepted - _update_context has collected every class of an annotation before its entry is parsed, and
+   eval(type_, globals(), context) looks the context up first *)
+Theorem C19_consistent_is_accepted : forall scope req ann doc,
+  sig_ok ann = true -> scope_ok scope ann = true -> doc_no_typing_dot doc = true ->
+  consistent scope ann doc -> check docstring_prog (fc req ann doc) = Ok tt.
+Proof.
+  intros scope req ann doc Hs Hsc Hdot H. rewrite C19_prog_is_canonical, check_canonical.
+  eapply consistent_accepted; eauto.
+Qed.
+Print Assumptions C19_consistent_is_accepted.
+
+(* Full statement (false on the current code, see C19_accepted_is_consistent_refuted; open finding C19-late-shadowing):
+     forall scope req ann doc, sig_ok ann = true -> scope_ok scope ann = true ->
+       check docstring_prog (fc req ann doc) = Ok tt -> consistent scope ann doc.
+   A class whose name hides a typing name shadows that name only after an annotation mentioning it has been processed;
+   before that, the documented name still means the typing object.                                                    *)
+Theorem C19_accepted_is_consistent_partial : forall scope req ann doc,
+  sig_ok ann = true -> scope_ok scope ann = true -> no_hiding scope = true ->
   check docstring_prog (fc req ann doc) = Ok tt -> consistent scope ann doc.
 Proof.
-  intros scope req ann doc Hs Hsc H. rewrite C19_prog_is_canonical, check_canonical in H.
+  intros scope req ann doc Hs Hsc Hh H. rewrite C19_prog_is_canonical, check_canonical in H.
   eapply accepted_consistent; eauto.
 Qed.
-Print Assumptions C19_accepted_is_consistent.
+Print Assumptions C19_accepted_is_consistent_partial.
 
-(* decoration-time acceptance is exactly consistency.  `doc_no_typing_dot`: pedantic rejects the *spelling* "typing." in a
-   documented type as such; a documented type written that way is not an expression of the vocabulary anyway.            *)
-Theorem C19_accepts_iff_consistent : forall scope req ann doc,
-  sig_ok ann = true -> scope_ok scope ann = true -> doc_no_typing_dot doc = true ->
+Definition dt (text : string) (e : texpr) : dtype := {| dt_text := text; dt_expr := e |}.
+
+(* import typing as t; class List: ...; def f(a: t.List[int], b: List) with `a (List[int])`, `b (List)`: in the scope of f
+   `List[int]` denotes nothing (List is the class), the docstring is accepted; with the parameters swapped it is rejected *)
+Theorem C19_accepted_is_consistent_refuted : exists scope req ann doc,
+  sig_ok ann = true /\ scope_ok scope ann = true /\
+  check docstring_prog (fc req ann doc) = Ok tt /\ ~ consistent scope ann doc.
+Proof.
+  exists ["List"; "int"], true, [("a", TGen (GTyping "List") [TCls "int"]); ("b", TCls "List")],
+         (mkdoc RawText [("a", Some (dt "List[int]" (ESub (EName "List") (EName "int")))); ("b", Some (dt "List" (EName "List")))] None).
+  split; [vm_compute; reflexivity|]. split; [vm_compute; reflexivity|]. split; [vm_compute; reflexivity|].
+  intros C. apply consistentb_iff in C; [|apply nodupb_NoDup; vm_compute; reflexivity]. vm_compute in C. discriminate.
+Qed.
+Print Assumptions C19_accepted_is_consistent_refuted.
+
+Theorem C19_accepts_iff_consistent_partial : forall scope req ann doc,
+  sig_ok ann = true -> scope_ok scope ann = true -> doc_no_typing_dot doc = true -> no_hiding scope = true ->
   (check docstring_prog (fc req ann doc) = Ok tt <-> consistent scope ann doc).
 Proof.
-  intros scope req ann doc Hs Hsc Hdot. rewrite C19_prog_is_canonical, check_canonical. split.
+  intros scope req ann doc Hs Hsc Hdot Hh. rewrite C19_prog_is_canonical, check_canonical. split.
   - eapply accepted_consistent; eauto.
   - eapply consistent_accepted; eauto.
 Qed.
-Print Assumptions C19_accepts_iff_consistent.
+Print Assumptions C19_accepts_iff_consistent_partial.
 
 (* _update_context collects every class an annotation mentions (also under X | Y, since 2108a61) before the entry of that
    annotation is parsed: the fact behind the "consistent => accepted" direction *)
 Theorem C19_context_complete : forall ann, sig_ok ann = true -> ctx_covers [] ann = true.
 Proof. intros ann H. apply ann_ok_ctx_covers. apply (sf_ann_ok _ (sig_ok_facts _ H)). Qed.
 Print Assumptions C19_context_complete.
-
-Definition dt (text : string) (e : texpr) : dtype := {| dt_text := text; dt_expr := e |}.
 
 (* ---- rejection: always PedanticDocstringException ------------------------------------------------------------------- *)
 (* for every signature and every parsed docstring - documented types missing, not expressions at all, with a wrong number
@@ -101,38 +133,54 @@ Proof.
 Qed.
 Print Assumptions C19_only_docstring_exception.
 
-Theorem C19_rejects_inconsistent : forall scope req ann doc,
-  sig_ok ann = true -> scope_ok scope ann = true ->
+(* (full statements without `no_hiding`: false for the same reason, see C19_one_edit_rejected_refuted) *)
+Theorem C19_rejects_inconsistent_partial : forall scope req ann doc,
+  sig_ok ann = true -> scope_ok scope ann = true -> no_hiding scope = true ->
   ~ consistent scope ann doc -> check docstring_prog (fc req ann doc) = Raise PDocstringC.
 Proof.
   intros. rewrite C19_prog_is_canonical, check_canonical. eapply inconsistent_rejected; eauto.
 Qed.
-Print Assumptions C19_rejects_inconsistent.
+Print Assumptions C19_rejects_inconsistent_partial.
 
 (* every single edit of a consistent docstring: drop / add / rename a documented parameter (also onto the name of another
    one), change one documented type to ANY expression with a different denotation or with none (a change at any nesting
    depth, also into something that is not a type: `List[int, str]`, `int[str]`, `int or`, `int.foo`),
    remove the type of a documented parameter, drop / add / alter the Returns entry, Returns without a type *)
-Theorem C19_one_edit_rejected : forall scope req ann doc doc',
-  sig_ok ann = true -> scope_ok scope ann = true ->
+Theorem C19_one_edit_rejected_partial : forall scope req ann doc doc',
+  sig_ok ann = true -> scope_ok scope ann = true -> no_hiding scope = true ->
   consistent scope ann doc -> one_edit scope doc doc' ->
   check docstring_prog (fc req ann doc') = Raise PDocstringC.
 Proof.
   intros. rewrite C19_prog_is_canonical, check_canonical. eapply one_edit_rejected; eauto.
 Qed.
-Print Assumptions C19_one_edit_rejected.
+Print Assumptions C19_one_edit_rejected_partial.
 
 (* ... and therefore decoration fails, whenever the check applies to the edited docstring *)
 Theorem C19_one_edit_rejected_at_decoration : forall scope req ann doc doc',
-  sig_ok ann = true -> scope_ok scope ann = true ->
+  sig_ok ann = true -> scope_ok scope ann = true -> no_hiding scope = true ->
   consistent scope ann doc -> one_edit scope doc doc' ->
   applies req doc' = true ->
   decorate docstring_prog (fc req ann doc') = Raise PDocstringC.
 Proof.
-  intros scope req ann doc doc' Hs Hsc Hc He Ha. rewrite C19_trigger.
-  cbn [fc mkfc f_parser f_require f_doc andb]. rewrite Ha. eapply C19_one_edit_rejected; eauto.
+  intros scope req ann doc doc' Hs Hsc Hh Hc He Ha. rewrite C19_trigger.
+  cbn [fc mkfc f_parser f_require f_doc andb]. rewrite Ha. eapply C19_one_edit_rejected_partial; eauto.
 Qed.
 Print Assumptions C19_one_edit_rejected_at_decoration.
+
+(* class Union: ...; def f(a: int, b: Union) with `a (int)`, `b (Union)` is consistent; the edit a (int) -> a (Union[int])
+   (in the scope of f: not a type at all) is accepted, because typing.Union[int] is int while the class is not collected yet *)
+Theorem C19_one_edit_rejected_refuted : exists scope req ann doc doc',
+  sig_ok ann = true /\ scope_ok scope ann = true /\ consistent scope ann doc /\ one_edit scope doc doc' /\
+  check docstring_prog (fc req ann doc') = Ok tt.
+Proof.
+  exists ["Union"; "int"], true, [("a", TCls "int"); ("b", TCls "Union")],
+         (mkdoc RawText ([] ++ ("a", Some (dt "int" (EName "int"))) :: [("b", Some (dt "Union" (EName "Union")))]) None),
+         (mkdoc RawText ([] ++ ("a", Some (dt "Union[int]" (ESub (EName "Union") (EName "int")))) :: [("b", Some (dt "Union" (EName "Union")))]) None).
+  split; [vm_compute; reflexivity|]. split; [vm_compute; reflexivity|]. split; [|split; [|vm_compute; reflexivity]].
+  - apply consistentb_iff; [apply nodupb_NoDup; vm_compute; reflexivity|vm_compute; reflexivity].
+  - apply E_change_type. intros [t [t' [E1 [E2 Q]]]]. vm_compute in E2. discriminate.
+Qed.
+Print Assumptions C19_one_edit_rejected_refuted.
 
 (* ---- pedantic_class_require_docstring: the methods are decorated in order ---------------------------------------------- *)
 Theorem C19_class_all_methods : forall l,
@@ -189,6 +237,17 @@ Example ex_unevaluable_rejected :
      EAttr (EName "typing") "foo"] = true.
 Proof. vm_compute. reflexivity. Qed.
 
+(* user classes called Type and Sequence, documented faithfully: def f(a: Type, b: Dict[str, Sequence]) -> Optional[Type] *)
+Example ex_hiding_consistent_accepted :
+  let ann := [("return", TUnion [TCls "Type"; TCls "NoneType"]); ("a", TCls "Type");
+              ("b", TGen (GTyping "Dict") [TCls "str"; TCls "Sequence"])] in
+  let doc := mkdoc RawText [("a", Some (dt "Type" (EName "Type")));
+                            ("b", Some (dt "Dict[str, Sequence]" (ESub (EName "Dict") (ETuple [EName "str"; EName "Sequence"]))))]
+                           (Some [dt "Optional[Type]" (ESub (EName "Optional") (EName "Type"))]) in
+  let scope := ["Type"; "Sequence"; "NoneType"; "str"] in
+  no_hiding scope = false /\ consistentb scope ann doc = true /\ check docstring_prog (fc true ann doc) = Ok tt.
+Proof. vm_compute. repeat split; reflexivity. Qed.
+
 (* ---- non-vacuity ---------------------------------------------------------------------------------------------------------- *)
 (* def f(a: Optional[List[Foo]], *args: int, k: Dict[str, Foo] | None) -> Callable[[Foo], int]   with a faithful docstring
    that respells Optional[...] as Union[..., None] *)
@@ -204,7 +263,7 @@ Definition ex_k : dtype := dt "Optional[Dict[str, Foo]]" (ESub (EName "Optional"
 Definition ex_ret : dtype := dt "Callable[[Foo], int]" (ESub (EName "Callable") (ETuple [EList [EName "Foo"]; EName "int"])).
 Definition ex_doc : docT := mkdoc RawText [("k", Some ex_k); ("a", Some ex_a); ("args", Some ex_args)] (Some [ex_ret]).
 
-Example ex_guards : sig_ok ex_ann = true /\ scope_ok ex_scope ex_ann = true /\ doc_no_typing_dot ex_doc = true /\
+Example ex_guards : sig_ok ex_ann = true /\ scope_ok ex_scope ex_ann = true /\ no_hiding ex_scope = true /\ doc_no_typing_dot ex_doc = true /\
   doc_evaluable ex_scope ex_doc = true.
 Proof. repeat split; vm_compute; reflexivity. Qed.
 
